@@ -332,6 +332,20 @@ pub fn reserve_job(b: &Block, policy: bool, run0: &RunCfg, gran: Granularity, bo
                 detail: format!("balance of the delegated account: got {a_balance:?}, expected {a_bal} (nothing but its own later transactions may debit it)"),
             };
         }
+        // "keeps the nonce bump": the sender of the debiting transaction (which sends nothing else in
+        // these blocks) ends with the nonce of the stock run - for a create transaction the bump
+        // has to be re-applied by hand after the checkpoint revert
+        {
+            let caller = case.txs[debit_tx].caller;
+            let nonce_of = |b: &revm_database::BundleState| b.state.get(&caller).and_then(|x| x.info.as_ref()).map(|i| i.nonce);
+            let (got, want) = (nonce_of(&obs.bundle), nonce_of(&st.obs.bundle));
+            if got != want {
+                return Judgement::Violation {
+                    key: "reserve-nonce".into(),
+                    detail: format!("nonce of the debiting transaction's sender {}: got {got:?}, expected {want:?} (the charged revert keeps the nonce bump)", short(&caller)),
+                };
+            }
+        }
         if obs.bundle.state.contains_key(&sink()) {
             return Judgement::Violation { key: "reserve-state".into(), detail: "the debit's recipient was touched although the execution was reverted".into() };
         }
